@@ -63,6 +63,10 @@ def interp_cases(tier, seed):
     # more bad channels in one call than any block size found in the source (pairs of adjacent dead / noisy channels all along the probe)
     for fam in ("NP1", "NP2.4"):
         out.append((fam, "many-bad", [0]))
+    # label vectors without a single good channel: only dead / noisy / outside-brain channels (probe out of the brain, tip entirely bad below an outside block)
+    for fam in ("NP1", "NP2", "NP2.4"):
+        for rest in (3, 1):
+            out.append((fam, "no-good", [rest]))
     return out
 
 
@@ -183,6 +187,16 @@ def interp_check(case):
                 else:
                     pos += 1          # its adjacent partner
             ntr += _interp_one(h, labels, data, seen, "%s %d bad channels in adjacent dead/noisy pairs" % (fam, int((labels > 0).sum())))
+    elif mode == "no-good":
+        rest = par[0]
+        for first in itertools.product((1, 2, 3), repeat=6):
+            labels = np.full(nc, float(rest))
+            labels[:6] = first
+            ntr += _interp_one(h, labels, data[:2], seen, "%s no good channel: labels[:6]=%r, all others %d" % (fam, list(first), rest))
+        for split in (8, 96, 300, 376):
+            labels = np.full(nc, 3.0)
+            labels[:split] = 1 + (np.arange(split) % 2)
+            ntr += _interp_one(h, labels, data[:2], seen, "%s channels 0..%d dead/noisy, all above outside the brain" % (fam, split - 1))
     elif mode == "in-outside-block":
         # dead / noisy channels whose only neighbours within reach are labelled outside the brain: they must be rebuilt from them
         for pos in range(nc - 14, nc - 5):
